@@ -176,15 +176,16 @@ int main(void) {
             char *e1 = strstr((char *)eb.p, "runtime error:");
             char *e2 = strstr((char *)eb.p, "ERROR: AddressSanitizer");
             char *e = e1 ? e1 : e2;
-            if (e1 && strstr(e1, "signed integer overflow")) cls = "ub-overflow";
+            if (e1 && (strstr(e1, "signed integer overflow") || strstr(e1, "negation of"))) cls = "ub-overflow";
             if (e) { size_t i = 0; while (e[i] && e[i] != '\n' && i < sizeof first - 1) { first[i] = (e[i] == '|' || e[i] == ':' ? '/' : e[i]); i++; } first[i] = 0; }
             /* innermost symbolised frames of the report: "#0 0x.. in <fn> " */
-            char fr[160] = ""; int nf = 0;
-            for (char *q = (char *)eb.p; nf < 3 && (q = strstr(q, " in ")) != NULL; q += 4) {
+            char fr[200] = ""; int nf = 0;
+            for (char *q = (char *)eb.p; nf < 4 && (q = strstr(q, " in ")) != NULL; q += 4) {
                 if (q - (char *)eb.p < 8 || !strstr(q - 24 < (char *)eb.p ? (char *)eb.p : q - 24, "#")) continue;
                 char nm[48]; size_t i = 0; const char *s = q + 4;
                 while (s[i] && s[i] != ' ' && s[i] != '\n' && s[i] != '(' && i < sizeof nm - 1) { nm[i] = s[i]; i++; } nm[i] = 0;
-                if (!i || strstr(fr, nm)) continue;
+                if (!i || strstr(fr, nm) || !strncmp(nm, "__interceptor", 13) || !strncmp(nm, "__asan", 6) || strstr(nm, "printf") ||
+                    !strcmp(nm, "fputc") || !strcmp(nm, "fwrite") || !strncmp(nm, "_IO_", 4) || !strncmp(nm, "__GI_", 5)) continue;
                 if (nf) strncat(fr, ",", sizeof fr - strlen(fr) - 1);
                 strncat(fr, nm, sizeof fr - strlen(fr) - 1); nf++;
             }
